@@ -253,3 +253,21 @@ impl<'a, T: Hash + Eq + Clone> Default for BackedRobinhoodTable<'a, T> {
         Self::new()
     }
 }
+
+/// verification hooks (only with `--cfg rsdd_verif`): a table with a caller-chosen (tiny) capacity
+#[cfg(rsdd_verif)]
+impl<'a, T: Hash + Eq + Clone> BackedRobinhoodTable<'a, T> {
+    pub fn with_capacity(cap: usize) -> BackedRobinhoodTable<'a, T> {
+        BackedRobinhoodTable {
+            tbl: vec![HashTableElement::default(); cap],
+            alloc: Bump::new(),
+            cap,
+            len: 0,
+            hits: 0,
+        }
+    }
+
+    pub fn capacity(&self) -> usize {
+        self.cap
+    }
+}
